@@ -106,7 +106,7 @@ func panicKey(stack string) string {
 		if !after {
 			continue
 		}
-		if m := frameRe.FindStringSubmatch(l); m != nil && !strings.Contains(l, "zz_verif") && !strings.Contains(l, ".V") {
+		if m := frameRe.FindStringSubmatch(l); m != nil {
 			fn = m[1]
 			break
 		}
@@ -191,6 +191,9 @@ func init() {
 				return
 			}
 			res.Rejected++
+			if os.Getenv("C08_DEBUG") != "" {
+				fmt.Fprintf(os.Stderr, "UNCHANGED %s err=%v\n", label, err)
+			}
 			if err != nil {
 				res.Outcomes["answered with an error, state unchanged"]++
 			} else {
@@ -428,15 +431,24 @@ func (dummyStream) Dial(string, time.Duration) (stdnet.Conn, error)      { retur
 func (dummyStream) AdvertiseAddr() string                                { return "harness" }
 
 func runBytes(it HostileItem, res *HostileResult) {
+	start := it.From
+	for start >= 0 {
+		start = runBytesFrom(it, res, start)
+	}
+}
+
+// runBytesFrom handles cases start, start+stride, … on a fresh instance and
+// returns the next case index after a panic (the instance is poisoned then), or -1 when done.
+func runBytesFrom(it HostileItem, res *HostileResult, start int) int {
 	x := c08Build("mid")
 	defer x.Close()
 	c := x.C
-	seen := map[string]bool{}
 	viol := func(key, what string, rp map[string]interface{}) {
-		if seen[key] {
-			return
+		for _, v := range res.Viol {
+			if v.Key == key {
+				return
+			}
 		}
-		seen[key] = true
 		res.Viol = append(res.Viol, ev.Violation{Property: "C08", Key: key, What: what, Replay: rp})
 	}
 	diff, _ := c.Nodes[1].Node.VEventDiff(c.Nodes[0].Store.KnownEvents())
@@ -512,7 +524,7 @@ func runBytes(it HostileItem, res *HostileResult) {
 	}()
 	defer close(stop)
 	n0 := c.Nodes[0]
-	for k := it.From; k < len(cases); k += it.To {
+	for k := start; k < len(cases); k += it.To {
 		bc := cases[k]
 		res.Attempts++
 		cd := commitsDigest(n0)
@@ -546,7 +558,7 @@ func runBytes(it HostileItem, res *HostileResult) {
 		case hp = <-done:
 		case <-time.After(60 * time.Second):
 			viol("handler-hangs", "connection handler did not return 60 s after the connection was closed: "+bc.name, map[string]interface{}{"case": bc.name})
-			return
+			return -1
 		}
 		mu.Lock()
 		ps := panicStack
@@ -560,8 +572,8 @@ func runBytes(it HostileItem, res *HostileResult) {
 			key := panicKey(ps)
 			res.Outcomes["bytes: panic "+key]++
 			viol("panic:"+key, fmt.Sprintf("byte stream (%s): panic: %s", bc.name, firstLines(ps, 1)), map[string]interface{}{"case": bc.name, "bytes": fmt.Sprintf("%q", trunc200(bc.data)), "stack": firstLines(ps, 40)})
-			// a panic inside processRPC may have left the node's lock held: rebuild everything
-			return
+			// a panic inside processRPC may have left the node's lock held: continue on a fresh instance
+			return k + it.To
 		}
 		if d := commitsDigest(n0); d != cd && !strings.HasPrefix(d, cd) {
 			viol("delivered-blocks-changed", "byte stream changed delivered blocks: "+bc.name, map[string]interface{}{"case": bc.name})
@@ -578,6 +590,7 @@ func runBytes(it HostileItem, res *HostileResult) {
 	} else {
 		res.Twins++
 	}
+	return -1
 }
 
 func trunc200(b []byte) []byte {
